@@ -25,6 +25,7 @@ import (
 //	        m = y (entity exists) | n (matches no series), v = 1 vectorized | 0 row path; result pulled + released
 //	P<e><how><i> chunked-sync part handler for segment i: create, then Close. how: ok | ts | gr | tb,
 //	        trace also sx (first part is a sidx part; fails, the data path is relative) | os (core then sidx)
+//	K<e> real database.Tick inside the last hour of the newest segment: rotation pre-creates the next segment
 //	I idle reclaim on both engines          X<e><i> DeleteExpiredSegments([i])
 //
 // output: "init=<dump> <res>=<dump> ..."; dump = stream segments ',' joined '/' trace segments, each
@@ -38,6 +39,7 @@ type engine interface {
 	IdleReclaim() int
 	Delete(i int) int64
 	SyncPart(i int, how string) string
+	RotationTick() string
 	Close() error
 }
 
@@ -60,8 +62,8 @@ func (w *engWorld) eng(c byte) engine {
 
 func (w *engWorld) dump() string {
 	one := func(e engine) string {
-		parts := make([]string, w.k)
-		for i := 0; i < w.k; i++ {
+		parts := make([]string, e.K())
+		for i := 0; i < e.K(); i++ {
 			rc, op, mbd, dir := e.State(i)
 			parts[i] = fmt.Sprintf("%d.%s.%s.%s", rc, drv.B01(op), drv.B01(mbd), drv.B01(dir))
 		}
@@ -73,14 +75,14 @@ func (w *engWorld) dump() string {
 func (w *engWorld) op(o string) string {
 	switch o[0] {
 	case 'H':
-		e, i := o[1], dig(o[2], w.k)
+		e, i := o[1], dig(o[2], w.eng(o[1]).K())
 		if err := w.eng(e).Hold(i); err != nil {
 			return "err"
 		}
 		w.held[e][i]++
 		return "ok"
 	case 'R':
-		e, i := o[1], dig(o[2], w.k)
+		e, i := o[1], dig(o[2], w.eng(o[1]).K())
 		if w.held[e][i] == 0 {
 			return "-"
 		}
@@ -88,21 +90,27 @@ func (w *engWorld) op(o string) string {
 		w.eng(e).Release(i)
 		return "ok"
 	case 'U':
-		e, i := o[1], dig(o[2], w.k)
+		e, i := o[1], dig(o[2], w.eng(o[1]).K())
 		if w.held[e][i] == 0 {
 			return "-"
 		}
 		return drv.B01(w.eng(e).Look(i))
 	case 'Q':
-		lo, hi := dig(o[4], w.k), dig(o[5], w.k)
+		lo, hi := dig(o[4], w.st.K()), dig(o[5], w.st.K())
 		n, res := w.st.Query(lo, hi, o[1] == 'i', o[2] == 'y', o[3] == '1')
 		return res + ":" + strconv.Itoa(n)
 	case 'P':
-		return w.eng(o[1]).SyncPart(dig(o[4], w.k), o[2:4])
+		return w.eng(o[1]).SyncPart(dig(o[4], w.eng(o[1]).K()), o[2:4])
 	case 'I':
 		return strconv.Itoa(w.st.IdleReclaim()) + "+" + strconv.Itoa(w.tr.IdleReclaim())
 	case 'X':
-		return strconv.FormatInt(w.eng(o[1]).Delete(dig(o[2], w.k)), 10)
+		return strconv.FormatInt(w.eng(o[1]).Delete(dig(o[2], w.eng(o[1]).K())), 10)
+	case 'K':
+		r := w.eng(o[1]).RotationTick()
+		for len(w.held[o[1]]) < w.eng(o[1]).K() {
+			w.held[o[1]] = append(w.held[o[1]], 0)
+		}
+		return r
 	}
 	panic("bad eng op " + o)
 }
@@ -147,7 +155,7 @@ func engCase(f []string) string {
 	}
 	// leave nothing pinned so that Close is clean
 	for _, e := range []byte{'s', 't'} {
-		for i := 0; i < k; i++ {
+		for i := range w.held[e] {
 			for w.held[e][i] > 0 {
 				w.held[e][i]--
 				w.eng(e).Release(i)
